@@ -17,7 +17,8 @@ structure Inst where
   batches : List (Nat × List BOp) := []
   /-- step-wise iterators: what is still to be delivered.  Under the interface's contract (no write within the domain while
   the iterator exists) every engine delivers the content as of creation. -/
-  iters : List (Nat × List KV) := []
+  iters : List (Nat × Cursor) := []
+  bsizes : List (Nat × Nat) := []
 
 structure St where
   insts : List Inst := []
@@ -96,6 +97,48 @@ def vPIter {σ : Type} (I : DBI σ) (db : σ) (pfx : Option Bytes) (q : Bound) :
 def vIterPrefix {σ : Type} (I : DBI σ) (db : σ) (pfx : Option Bytes) (q : Bytes) : Option (List KV) :=
   if q.isEmpty then vIter I db pfx false none none else vIter I db pfx false (some q) (prefixToEnd q)
 
+/-- child-process probes (operations on a closed store, double Close, overwritten files, another shard count): the answers of
+the adapters as they are today, observed and pinned; `exit=crashed` = the process died (a panic inside a goroutine spawned by
+Batch.Write), `exit=hang` = it blocked for good -/
+def childProbeTable : List (String × String × String) :=
+  [ ("closed-reads", "mem", "v=01,v=01,true,kv=01:01,exit=ok"),
+    ("closed-reads", "ldb", "panic,none,false,kv=-,exit=ok"),
+    ("closed-reads", "bolt", "none,none,false,panic,exit=ok"),
+    ("closed-reads", "bdg", "panic,panic,panic,panic,exit=ok"),
+    ("closed-writes", "mem", "ok,ok,ok,ok,ok,ok,exit=ok"),
+    ("closed-writes", "ldb", "err,err,ok,ok,err,panic,exit=ok"),
+    ("closed-writes", "bolt", "err,err,ok,ok,err,ok,exit=ok"),
+    ("closed-writes", "bdg", "err,exit=hang"),
+    ("closed-batch-write", "mem", "exit=ok"),
+    ("closed-batch-write", "ldb", "exit=crashed"),
+    ("closed-batch-write", "bolt", "exit=ok"),
+    ("closed-batch-write", "bdg", "exit=crashed"),
+    ("double-close-reopen", "mem", "ok,ok,kv=-,exit=ok"),
+    ("double-close-reopen", "ldb", "ok,ok,kv=01:01,exit=ok"),
+    ("double-close-reopen", "bolt", "ok,ok,kv=01:01,exit=ok"),
+    ("double-close-reopen", "bdg", "ok,ok,kv=01:01,exit=ok"),
+    ("corrupt-open", "mem", "n/a,ok,none,exit=ok"),
+    ("corrupt-open", "ldb", "ok,ok,none,exit=ok"),
+    ("corrupt-open", "bolt", "ok,ok,v=01,exit=ok"),
+    ("corrupt-open", "bdg", "ok,panic,panic,exit=ok"),
+    ("reshard", "mem", "ok,none,none,none,none,kv=-,ok,ok,kv=-,exit=ok"),
+    ("reshard", "ldb", "ok,none,v=02,none,none,kv=01:01,02:02,03:03,04:04,ok,ok,kv=01:01,02:02,03:03,04:04,exit=ok"),
+    ("reshard", "bolt", "ok,none,v=02,none,none,kv=01:01,02:02,03:03,04:04,ok,ok,kv=01:01,02:02,03:03,04:04,exit=ok"),
+    ("reshard", "bdg", "ok,none,v=02,none,none,kv=01:01,02:02,03:03,04:04,ok,ok,kv=01:01,02:02,03:03,04:04,exit=ok") ]
+
+def childProbeAns (kind b : String) : String :=
+  match childProbeTable.find? (fun t => t.1 == kind && t.2.1 == b) with
+  | some t => t.2.2
+  | none => "bad-op"
+
+/-- `bigbatch`: n Sets in one batch.  bolt writes the batch by itself when it reaches 100000 ops (`boltMaxBatchSize`), badger's
+WriteBatch commits by itself whenever its transaction is full: both make a part of the batch visible BEFORE Write -/
+def bigBatchEarly (e : Engine) (n : Nat) : Nat :=
+  match e with
+  | .bolt => if n > 100000 then 2 else 0
+  | .bdg => if n ≥ 40000 then 2 else 0      -- pinned for n = 40000 (64-byte values); small batches: 0
+  | _ => 0
+
 def underOp (op : String) : Option String :=
   if op == "uset" || op == "udel" || op == "uget" || op == "uiter" || op == "uriter" then some ((op.drop 1).toString) else none
 
@@ -113,6 +156,12 @@ def engineOf : BSt → Engine
   | .bdg _ => .bdg
 
 def batchOf (i : Inst) (id : Nat) : List BOp := (i.batches.lookup id).getD []
+
+def setIt (i : Inst) (id : Nat) (c : Cursor) : Inst :=
+  { i with iters := (id, c) :: i.iters.filter (fun b => b.1 != id) }
+
+def bumpSize (i : Inst) (eng : Engine) (id : Nat) (ev : BEvent) : Inst :=
+  { i with bsizes := (id, eng.valueSize ((i.bsizes.lookup id).getD 0) ev) :: i.bsizes.filter (fun b => b.1 != id) }
 
 def setBatch (i : Inst) (id : Nat) (ops : List BOp) : Inst :=
   { i with batches := (id, ops) :: i.batches.filter (fun b => b.1 != id) }
@@ -150,27 +199,73 @@ def stepInst (s : St) (i : Inst) (toks : List String) : Inst × String :=
     (i, showIter s.sharded (i.st.read (fun I db => vIterPrefix I db s.pfx (argBytes toks "p"))))
   else if (op == "bset" || op == "bdel" || op == "bwrite" || op == "bwritesync" || op == "bcommit" || op == "breset")
       && (i.batches.lookup id).isNone then (i, "nobatch")
-  else if op == "bnew" then (setBatch i id [], "ok")
-  else if op == "bset" then (setBatch i id (batchOf i id ++ [BOp.set (pk k) v]), "ok")
-  else if op == "bdel" then (setBatch i id (batchOf i id ++ [BOp.del (pk k)]), "ok")
+  else if op == "bnew" then (bumpSize (setBatch i id []) eng id .reset, "ok")
+  else if op == "bset" then (bumpSize (setBatch i id (batchOf i id ++ [BOp.set (pk k) v])) eng id (.set v.length), "ok")
+  else if op == "bdel" then (bumpSize (setBatch i id (batchOf i id ++ [BOp.del (pk k)])) eng id .del, "ok")
   else if op == "bwrite" || op == "bwritesync" || op == "bcommit" then
     let i' := { i with st := i.st.lift (fun I db => writeBatch I db (eng.batchOps (batchOf i id))) }
-    (setBatch i' id (batchAfterWrite (afterWrite i.st) (batchOf i id)), "ok")
-  else if op == "breset" then (setBatch i id [], "ok")
+    (bumpSize (setBatch i' id (batchAfterWrite (afterWrite i.st) (batchOf i id))) eng id .write, "ok")
+  else if op == "breset" then (bumpSize (setBatch i id []) eng id .reset, "ok")
   else if op == "bdrop" then ({ i with batches := i.batches.filter (fun b => b.1 != id) }, "ok")
-  else if op == "reopen" then ({ i with st := i.st.lift (fun I db => I.reopen db), batches := [], iters := [] }, "ok")
+  else if op == "reopen" then ({ i with st := i.st.lift (fun I db => I.reopen db), batches := [], iters := [], bsizes := [] }, "ok")
   else if op == "iopen" then
-    let r := if (arg? toks "rev") == some "1" then i.st.read (fun I db => vRIter I db s.pfx under (argBound toks "s") (argBound toks "e"))
-             else i.st.read (fun I db => vIter I db s.pfx under (argBound toks "s") (argBound toks "e"))
+    let rev := (arg? toks "rev") == some "1"
+    let sb := argBound toks "s"
+    let eb := argBound toks "e"
+    let r := if rev then i.st.read (fun I db => vRIter I db s.pfx under sb eb)
+             else i.st.read (fun I db => vIter I db s.pfx under sb eb)
     match r with
     | none => (i, "panic")
-    | some kvs => ({ i with iters := (id, kvs) :: i.iters.filter (fun b => b.1 != id) }, "ok")
+    | some kvs => (setIt i id { rest := kvs, s := sb, e := eb, rev := rev, born := !kvs.isEmpty }, "ok")
   else if op == "istep" then
     match i.iters.lookup id with
     | none => (i, "noiter")
-    | some [] => (i, "end")
-    | some (kv :: rest) => ({ i with iters := (id, rest) :: i.iters.filter (fun b => b.1 != id) }, hexEncode kv.1 ++ ":" ++ hexEncode kv.2)
+    | some c =>
+      match c.rest with
+      | [] => (i, "end")
+      | kv :: rest => (setIt i id { c with rest := rest }, hexEncode kv.1 ++ ":" ++ hexEncode kv.2)
+  else if op == "iseek" then
+    match i.iters.lookup id with
+    | none => (i, "noiter")
+    | some c =>
+      let kb := argBound toks "k"
+      let (c', a) := match s.pfx, under with
+        | some p, false => i.st.read (fun I db => seekView I db p c kb)
+        | _, _ => i.st.read (fun I db => seekStore I db c kb)
+      (setIt i id c', toString a)
+  else if op == "idomain" then
+    match i.iters.lookup id with
+    | none => (i, "noiter")
+    | some c => (i, s!"s={showBound c.s} e={showBound c.e}")
+  else if op == "ivalid" then
+    match i.iters.lookup id with
+    | none => (i, "noiter")
+    | some c => (i, toString (!c.rest.isEmpty))
+  else if op == "ikey" || op == "ivalue" then
+    match i.iters.lookup id with
+    | none => (i, "noiter")
+    | some c =>
+      match c.rest with
+      | [] => (i, "panic")
+      | kv :: _ => (i, hexEncode (if op == "ikey" then kv.1 else kv.2))
+  else if op == "inext" then
+    match i.iters.lookup id with
+    | none => (i, "noiter")
+    | some c =>
+      match c.rest with
+      | [] => (i, if eng.nextOnInvalidPanics (s.pfx.isSome && !under) then "panic" else "ok")
+      | _ :: rest => (setIt i id { c with rest := rest }, "ok")
   else if op == "iclose" then ({ i with iters := i.iters.filter (fun b => b.1 != id) }, "ok")
+  else if op == "bsize" then
+    if (i.batches.lookup id).isNone then (i, "nobatch") else (i, toString ((i.bsizes.lookup id).getD 0))
+  else if op == "bigbatch" then
+    let n := (argNat? toks "n").getD 0
+    (i, s!"visible-before-write={bigBatchEarly eng n}/3 after={n}")
+  else if op == "memkeys" then
+    match i.st with
+    | .mem db => let ks := sortKeys (db.m.map (·.1)); (i, s!"len={ks.length} keys={",".intercalate (ks.map hexEncode)}")
+    | _ => (i, "n/a")
+  else if op == "dir" then (i, if eng == .mem || (s.pfx.isSome && !under) then "empty" else "match")
   else (i, "bad-op")
 
 def newInst (name : String) : Option Inst :=
@@ -198,6 +293,7 @@ def leaf (toks : List String) : Option String :=
     let p := argBytes toks "p"
     some (showPair (if (arg? toks "rev") == some "1" then pfxBoundsRev p (argBound toks "s") (argBound toks "e")
                     else some (pfxBoundsFwd p (argBound toks "s") (argBound toks "e"))))
+  | "childprobe" :: _ => some (childProbeAns ((arg? toks "kind").getD "") ((arg? toks "b").getD ""))
   | "crashprobe" :: _ =>   -- badger batch reuse after Reset / Write in a child process (regression guard for 201fd44)
     some (if (arg? toks "mode") == some "reset-write" then "survived kv=02:02"
           else if (arg? toks "mode") == some "write-reset-write" then "survived kv=01:01,02:02"
